@@ -103,7 +103,7 @@ func VP_C13_wire_roundtrip() {
 	src.HeightMaps.WorldSurface.Set(hi, hm)
 	if vp.Choice(2) == 1 {
 		var be BlockEntity
-		be.PackXZ(15*vp.Choice(1+vp.Tier()), 15)
+		be.PackXZ(15*vp.Choice(2), 15*vp.Choice(1+vp.Tier())) // X = 15 makes the packed byte negative
 		be.Y = vp.Int16()
 		be.Type = block.EntityType(vp.Int32())
 		be.Data = nbt.RawMessage{Type: nbt.TagCompound, Data: []byte{0}}
